@@ -236,6 +236,7 @@ fn entry_point(req: &str) -> String {
         "c03.offsetpos" => "Lexer::offset_pos".into(),
         "c03.litstr" => "StringLexer".into(),
         "c03.hexstr" => "HexStringLexer".into(),
+        "c03.tok" => "Substr::{is_integer,real_number,to}".into(),
         "c03.parse" => match f.get(1) { Some(&"plain") => "parse_with_lexer".into(), Some(&"stm") => "parse_stream".into(), _ => "parse_indirect_object".into() },
         "c01.seek" => "Lexer::seek_substr".into(),
         "c01.seekback" => "Lexer::seek_substr_back".into(),
@@ -347,7 +348,7 @@ fn pick_n(rng: &mut Rng, len: usize, pos: usize) -> usize {
 /// one lexer-level request on `buf` at `pos`
 fn lex_request(rng: &mut Rng, buf: &[u8], pos: usize) -> String {
     let h = hex(buf);
-    match rng.below(20) {
+    match rng.below(21) {
         0 | 1 => format!("c03.word {} {}", h, pos),
         2 => format!("c03.peek {} {}", h, pos),
         3 => format!("c03.back {} {}", h, pos),
@@ -367,6 +368,7 @@ fn lex_request(rng: &mut Rng, buf: &[u8], pos: usize) -> String {
         15 => format!("c01.hexbyte {} {}", h, pos),
         16 => format!("c03.litstr {} {}", h, pos),
         17 => format!("c03.hexstr {} {}", h, pos),
+        18 => format!("c03.tok {}", hex(&buf[pos.min(buf.len())..(pos + 12).min(buf.len())])),
         _ => parse_request("plain", buf, pos, 1023, 0, &vec![], None),
     }
 }
